@@ -17,6 +17,8 @@ import (
 	"sync/atomic"
 	"testing"
 	"time"
+
+	"github.com/EdgeCast/vflow/reader"
 )
 
 var vJSONBuf = new(bytes.Buffer)
@@ -53,6 +55,7 @@ type vRes struct {
 	Ns          int64   `json:"ns,omitempty"`
 	NRec        int     `json:"nrec"`
 	ExpOK       bool    `json:"exp_unchanged"`
+	ReaderFresh bool    `json:"reader_fresh"`
 	MaxF        int     `json:"maxf"`
 	Recs        [][]vNO `json:"recs"`
 }
@@ -166,6 +169,12 @@ func vRunMsg(m vMsg, wantJSON, measure bool) (res vRes) {
 			res.St, res.Panic = "panic", fmt.Sprint(p)
 		}
 		res.ExpOK = bytes.Equal(exp, expCopy)
+		// a reader made NOW (the next datagram's) starts from nothing, whatever was decoded before it
+		fresh := make([]byte, 10, 16)
+		fr := reader.NewReader(fresh)
+		ok := fr.ReadCount() == 0 && fr.Len() == 10
+		fr.Read(3)
+		res.ReaderFresh = ok && fr.ReadCount() == 3 && fr.Len() == 7
 	}()
 	var ms0, ms1 runtime.MemStats
 	if measure {
